@@ -49,7 +49,30 @@ func genIOCase(r *sim.Rng, tier string, idx int) *IOCase {
 		if w.XZ != nil && w.XZ.BlockSize > 0 && int64(lim) > 12*w.XZ.BlockSize {
 			lim = int(12 * w.XZ.BlockSize)
 		}
-		if w.Payload.Len() > lim {
+		if r.Chance(1, 10) {
+			// incompressible data longer than the encoder's ring buffer: raw chunks
+			// copied out of the dictionary in two pieces, several chunks per stream
+			d := sim.Pick(r, []int{4096, 4096, 4097, 6144})
+			b := sim.Pick(r, []int{273, 300, 1000})
+			switch {
+			case w.XZ != nil:
+				w.XZ.DictCap, w.XZ.BufSize = d, b
+				if w.XZ.BlockSize > 0 && w.XZ.BlockSize < 1<<16 {
+					w.XZ.BlockSize = 0
+				}
+			case w.LZ != nil:
+				w.LZ.DictCap, w.LZ.BufSize = d, b
+			default:
+				w.L2.DictCap, w.L2.BufSize = d, b
+			}
+			n := r.Range(d+b+1, 3*(d+b))
+			w.Payload = sim.Payload{Kind: "concat", Parts: []sim.Payload{{Kind: "prng", N: n, Seed: r.Uint64()}, {Kind: "text", N: r.Range(0, 2000), Seed: r.Uint64()}}}
+			n = w.Payload.Len()
+			if w.LZ != nil && w.LZ.HasSize() {
+				w.LZ.Size, w.LZ.SizeInHeader = int64(n), true
+			}
+			w.Ops = genHistory(r, n, w.Format == "lzma2", []int{65536}, false)
+		} else if w.Payload.Len() > lim {
 			w.Payload = sim.GenPayload(r, lim)
 			n := w.Payload.Len()
 			if w.LZ != nil && w.LZ.HasSize() {
@@ -191,8 +214,8 @@ func runIOWriter(c *IOCase, x *sim.Ctx) *sim.Violation {
 						break
 					}
 				}
-			case !res.AnyErr:
-				v = sim.Viol("sink-error-masked", w.Format+":"+st, "%s: every call of the writer returned nil", what)
+			case !errorSurfaced(res):
+				v = sim.Viol("sink-error-masked", w.Format+":"+st, "%s: the constructor and every Write, Flush and Close up to and including the first Close returned nil", what)
 			}
 			if v != nil {
 				nc := *c
@@ -208,6 +231,24 @@ func runIOWriter(c *IOCase, x *sim.Ctx) *sim.Violation {
 		return v
 	}
 	return nil
+}
+
+// errorSurfaced reports whether the constructor or any call up to and
+// including the first Close returned an error. (A second Close fails with
+// "already closed" on every writer; that is not the sink's error surfacing.)
+func errorSurfaced(res *WResult) bool {
+	if res.NewErr != nil {
+		return true
+	}
+	for i, cr := range res.Calls {
+		if cr.Err != nil {
+			return true
+		}
+		if i == res.CloseIdx {
+			break
+		}
+	}
+	return false
 }
 
 // runFaultedWriter runs the history, then Close and Close again.
